@@ -39,3 +39,12 @@ package backtrace
 //@   loop 1 body synthetic_in_edges: istype(cur.Node, *dataflow.SyntheticNode) && expanded() ==> called(SyntheticNode.In, _)
 //@   loop 1 body bound_var_in_edges: istype(cur.Node, *dataflow.BoundVarNode) && expanded() ==> called(BoundVarNode.In, _)
 //@   loop 1 body global_read_drops_call_stack: istype(cur.Node, *dataflow.AccessGlobalNode) && !called(AccessGlobalNode.In, _) ==> !called(addNext, _, _, _, _, where(x, x.Trace != nil), _, _, _)
+
+// addNext either pushes exactly one new visitor node, built from the given graph node
+// and traces and linked to the current node, or leaves the stack as it is.
+//@ func Visitor.addNext
+//@   property C03
+//@   option havoc:*
+//@   requires v != nil && s != nil && cur != nil
+//@   ensures pushed: result1 ==> len(result0) == len(stack) + 1 && result0[len(stack)] != nil && result0[len(stack)].Node == nextNodeWithTrace.Node && result0[len(stack)].Trace == nextNodeWithTrace.Trace && result0[len(stack)].ClosureTrace == nextNodeWithTrace.ClosureTrace && result0[len(stack)].Prev == cur
+//@   ensures not_pushed: !result1 ==> result0 == stack
